@@ -6,8 +6,8 @@
    Hand-off protocol (Model/TaskMgr.v): [reach] = every interleaving of executors, collector and
    run loop.  Go's channel (capacity 1 = one-slot option) and sync.Mutex (atomic sections)
    semantics are assumed by the model. *)
-From Eino Require Import Base.Util Model.TaskMgr Model.Confluence.
-From Eino Require Import Proofs.TaskMgr Proofs.TaskMgrProgress Proofs.TaskMgrTrace Proofs.Confluence Proofs.Eager Proofs.HandoffOrder Proofs.TaskMgrComplete.
+From Eino Require Import Base.Util Model.TaskMgr Model.Confluence Model.EagerSkip Model.RunHandoff.
+From Eino Require Import Proofs.TaskMgr Proofs.TaskMgrProgress Proofs.TaskMgrTrace Proofs.Confluence Proofs.Eager Proofs.HandoffOrder Proofs.TaskMgrComplete Proofs.RunHandoff Proofs.RunHandoffOrder Proofs.RunHandoffLive Proofs.EagerSkip.
 From Coq Require Import Permutation.
 
 (* ---- every finished task is in exactly one of l / done / the collector's hands / collected;
@@ -298,3 +298,136 @@ Proof.
   exists s. split; [eapply run_trace_sound; [apply r_init|exact E]|].
   vm_compute in E. inversion E; subst; simpl. repeat split.
 Qed.
+
+(* ==== the two models composed into one transition system (Model/RunHandoff.v): a state is
+        (protocol state, run-loop state); [creach needAll m g F] = every interleaving of executors,
+        collector and the run loop that submits (first task synchronously when nothing is outstanding
+        and the step has one task or the mode is needAll), waits (batch: until nothing is outstanding;
+        eager: for one task) and resolves what the collector handed back, in the order it was
+        collected.  [conf_run] is the executable replay the correspondence runs on every trace. ==== *)
+
+(* the protocol component only makes steps of the hand-off LTS: tm_exactly_once, tm_no_lost_wakeup,
+   tm_deadlock_free ... hold along every path of the composed system *)
+Theorem run_protocol_projection : forall needAll m g F s r, creach needAll m g F (s, r) -> reach s.
+Proof. intros needAll m g F s r H. exact (creach_reach needAll m g F (s, r) H). Qed.
+Print Assumptions run_protocol_projection.
+
+(* every trace the replay accepts is a path of the composed system; what the replay reports
+   (outcome, executions, tasks left in flight) is what that path computed *)
+Theorem run_replay_sound : forall needAll m g F tr s o log lft,
+  conf_run needAll m g F tr = Some (s, (o, log, lft)) ->
+  exists r, creach needAll m g F (s, r) /\ r_res r = o /\ r_log r = log /\ ids_of (r_run r) = lft.
+Proof. exact conf_run_sound. Qed.
+Print Assumptions run_replay_sound.
+
+(* batch mode (Graph; pregel and dag channels): whatever the interleaving - the order in which the
+   tasks of every step finish, are pushed, handed over and collected - a run that returns, returns
+   the outcome and the executions of the canonical run that resolves every step in submission order *)
+Theorem run_batch_result : forall m g F s r o,
+  NoDup (map n_id g) -> creach true m g F (s, r) -> r_res r = Some o ->
+  (o, r_log r) = batch (fun l => l) m g F.
+Proof. exact combined_batch_result. Qed.
+Print Assumptions run_batch_result.
+
+(* eager mode (Workflow): two paths of the composed system (any two interleavings) that return a
+   value return the same value, computed from the same executions of the nodes feeding END *)
+Theorem run_eager_value_unique : forall g F1 F2 s1 r1 s2 r2 v1 v2,
+  NoDup (map n_id g) -> ~ In START (map n_id g) ->
+  creach false Dag g F1 (s1, r1) -> creach false Dag g F2 (s2, r2) ->
+  r_res r1 = Some (ODone v1) -> r_res r2 = Some (ODone v2) ->
+  v1 = v2 /\ Permutation (feeding g (r_log r1)) (feeding g (r_log r2)).
+Proof. exact combined_eager_value_unique. Qed.
+Print Assumptions run_eager_value_unique.
+
+(* ... and the same outcome altogether when every failing node feeds END (F-C03c carved out) *)
+Theorem run_eager_confluent : forall g F1 F2 s1 r1 s2 r2 o1 o2,
+  NoDup (map n_id g) -> ~ In START (map n_id g) -> failing_feed_end g ->
+  creach false Dag g F1 (s1, r1) -> creach false Dag g F2 (s2, r2) ->
+  r_res r1 = Some o1 -> r_res r2 = Some o2 ->
+  o1 = o2 /\ (forall v, o1 = ODone v -> Permutation (feeding g (r_log r1)) (feeding g (r_log r2))).
+Proof. exact combined_eager_confluent. Qed.
+Print Assumptions run_eager_confluent.
+
+(* a value is never returned while a task that feeds END is still in flight *)
+Theorem run_eager_ancestors_finished : forall g F s r v,
+  NoDup (map n_id g) -> ~ In START (map n_id g) ->
+  creach false Dag g F (s, r) -> r_res r = Some (ODone v) ->
+  forall x, In x (ids_of (r_run r)) -> ~ In x (ancestors g).
+Proof. exact combined_eager_ancestors_finished. Qed.
+Print Assumptions run_eager_ancestors_finished.
+
+(* at every moment of every path: no node has been started twice *)
+Theorem run_eager_starts_once : forall g F s r,
+  NoDup (map n_id g) -> ~ In START (map n_id g) ->
+  creach false Dag g F (s, r) ->
+  NoDup (map fst (r_log r)) /\ (forall y i, In (y, i) (r_log r) -> y <> END /\ In y (map n_id g)).
+Proof. exact combined_eager_starts_once. Qed.
+Print Assumptions run_eager_starts_once.
+
+(* eager mode, no hang, for whole runs: from every reachable state of the composed system every
+   maximal path (every interleaving of executors, collector and run loop; no fairness assumed: a
+   variant decreases with every step) reaches the return of the run; before the return the system is
+   never stuck - in particular the guards of the run-loop transitions never block: the task the
+   collector hands back is one the run loop has in flight, with the error flag of its body, and the
+   key of a task to be handed over is fresh *)
+Theorem run_eager_no_hang : forall g F x,
+  NoDup (map n_id g) -> ~ In START (map n_id g) ->
+  creach false Dag g F x -> CAF g (fun y => r_res (snd y) <> None) x.
+Proof. intros g F x Hnd Hs. exact (eager_no_hang g Hnd Hs F x). Qed.
+Print Assumptions run_eager_no_hang.
+
+Theorem run_eager_never_stuck : forall g F s r,
+  NoDup (map n_id g) -> ~ In START (map n_id g) ->
+  creach false Dag g F (s, r) -> r_res r = None -> exists y, cstep false Dag g (s, r) y.
+Proof. intros g F s r Hnd Hs. exact (cstep_enabled g Hnd Hs F s r). Qed.
+Print Assumptions run_eager_never_stuck.
+
+(* non-vacuity: an eager path that returns END's value and leaves task 4 in flight; a batch path in
+   which the step is collected in the order 4, 3 and that returns the canonical result *)
+Example run_eager_nonvacuous :
+  exists s r, creach false Dag g_side 0 (s, r) /\ r_res r = Some (ODone [3;0;2;0;1;1]%N) /\ ids_of (r_run r) = [4%N].
+Proof.
+  destruct (conf_run false Dag g_side 0
+     [EvSpawn 3 BOk; EvSpawn 4 BOk; EvAwait; EvLockE 3; EvPush 3 false; EvSend 3; EvUnlockE 3;
+      EvRecv 3 false; EvLockC; EvUnlockC]%N) as [[s [[o lg] lf]]|] eqn:E; [|vm_compute in E; discriminate].
+  destruct (conf_run_sound _ _ _ _ _ _ _ _ _ E) as (r & C & E1 & E2 & E3).
+  exists s, r. split; [exact C|]. vm_compute in E. inversion E. split; congruence.
+Qed.
+
+Definition g_two : graph := [mkn 3 [0%N] 0; mkn 4 [0%N] 0; mkn 1 [3%N; 4%N] 0].
+Example run_batch_nonvacuous :
+  exists s r, creach true Dag g_two 5 (s, r) /\ map fst (collected s) = [3; 4]%N /\
+              r_res r = Some (ODone [3;0;2;0;1;1;4;0;2;0;1;1]%N) /\
+              fst (batch (fun l => l) Dag g_two 5) = ODone [3;0;2;0;1;1;4;0;2;0;1;1]%N.
+Proof.
+  destruct (conf_run true Dag g_two 5
+     [EvSpawn 4 BOk; EvSync 3 BOk; EvLockE 4; EvPush 4 false; EvSend 4; EvUnlockE 4;
+      EvLockE 3; EvPush 3 false; EvFull; EvUnlockE 3; EvSyncRet 3;
+      EvAwait; EvRecv 4 false; EvLockC; EvSend 3; EvUnlockC;
+      EvAwait; EvRecv 3 false; EvLockC; EvUnlockC; EvEmpty]%N) as [[s [[o lg] lf]]|] eqn:E; [|vm_compute in E; discriminate].
+  destruct (conf_run_sound _ _ _ _ _ _ _ _ _ E) as (r & C & E1 & E2 & E3).
+  exists s, r. split; [exact C|]. vm_compute in E. inversion E as [[Hs Ho Hl Hf]].
+  split; [try rewrite <- Hs; try subst s; reflexivity|]. split; [congruence|]. vm_compute. reflexivity.
+Qed.
+
+(* ==== eager mode with branches (Model/EagerSkip.v, what the correspondence evaluates for Workflows
+        with branches): on a graph without branches the branch-aware run loop is the plain one, for
+        every schedule, so everything above holds for it there ==== *)
+Theorem eager_branches_conservative : forall g fixed pick fuel,
+  seager fixed pick (mksg g []) fuel = eager pick g fuel.
+Proof. exact seager_no_branches. Qed.
+Print Assumptions eager_branches_conservative.
+
+(* ---- finding F-C03d (fixed, /repo 665541a): before the fix ([seager false]) the outcome of a
+        Workflow with a node that is both a direct successor and an unselected branch end depended on
+        the schedule; the repaired rule gives one outcome on the witness
+        (corpus/C03/eager_edge_and_unselected_branch.json) ---- *)
+Theorem eager_branch_v0_schedule_dependent_refuted :
+  ~ (forall pick1 pick2 G fuel, fst (fst (seager false pick1 G fuel)) = fst (fst (seager false pick2 G fuel))).
+Proof. intros H. exact (seager_v0_schedule_dependent (H pick_first pick_newest g_fc03d 20%nat)). Qed.
+Print Assumptions eager_branch_v0_schedule_dependent_refuted.
+
+Example eager_branch_fixed_on_witness :
+  fst (fst (seager true pick_first g_fc03d 20)) = fst (fst (seager true pick_newest g_fc03d 20)) /\
+  exists v, fst (fst (seager true pick_first g_fc03d 20)) = ODone v.
+Proof. exact seager_fixed_on_witness. Qed.
